@@ -100,6 +100,8 @@ def run(tier):
     spec_selfcheck()
     h = build(tier)
     msyn = h.monomorphise(['f32', 'f64'], bound='<S: BaseFloat>', method_syntax='only', soft=True)
+    # (custom-spec roots written as method calls - invert, inverse_transform: an inherent method on one concrete type would shadow them)
+    msyn += h.monomorphise(['f32', 'f64'], bound='<S: BaseFloat>', kinds=('invert',), method_syntax='only', soft=True)
     S, inv, meta = facts.extract(PROP, h.src())
     report_dropped(run, meta, h)
     run_specs(run, S, h, custom={'invert': check_invert})
